@@ -20,6 +20,7 @@
 import Gozod.Model.Prim
 import Gozod.Model.Str
 import Gozod.Drv.C10
+import Gozod.Gen.EntryPoints
 namespace Gozod.Drv.C09
 open Gozod Gozod.Str Gozod.Prim Gozod.Drv.C10
 
@@ -91,7 +92,7 @@ def parseEP : String → Option EP
   | _ => none
 
 /-- One hop of the harness, turned into a `Prim.Op` against the current heap and executed by `Prim.step`. -/
-def hopStep (inB : Bytes) (h : List HCell) (tok : String) : Option (List HCell) :=
+def hopStep (ck : CloneKind) (inB : Bytes) (h : List HCell) (tok : String) : Option (List HCell) :=
   match tok.splitOn ":" with
   | ["run", ep, j, w] => do
     let ep ← parseEP ep
@@ -109,7 +110,7 @@ def hopStep (inB : Bytes) (h : List HCell) (tok : String) : Option (List HCell) 
     let s ← s.toNat?
     let _ ← h[d]?
     let _ ← h[s]?
-    pure (step pinned Str.env h (.cloneFrom .copyAll d s)).1
+    pure (step pinned Str.env h (.cloneFrom ck d s)).1
   | "chain" :: j :: modTok => do
     let j ← j.toNat?
     let c ← h[j]?
@@ -128,7 +129,14 @@ def parseInput (inTok : String) : Option (Input Bytes) :=
   else if inTok.endsWith "*" then (unhex (inTok.dropEnd 1).toString).map .ptr
   else (unhex inTok).map .val
 
-def observe (i : SI) (x : Input Bytes) : String :=
+/-- Does the schema type have a `MustParseAny` at all (regenerated entry-point table)? -/
+def hasMustParseAny (goType : String) : Bool :=
+  match EntryPoints.Table.find Gen.EntryPoints.table goType "MustParseAny" with
+  | some .absent => false
+  | none => false
+  | _ => true
+
+def observe (i : SI) (x : Input Bytes) (mpa : Bool := true) : String :=
   let p := renderOut (parse Str.env i x)
   let strictOk : Bool := match x with
     | .val _ => !i.ptrSchema
@@ -136,9 +144,10 @@ def observe (i : SI) (x : Input Bytes) : String :=
     | .nilPtr => i.ptrSchema
     | _ => false
   let s := if strictOk then renderOut (strictParse Str.env i x) else "n/a"
-  s!"P={p};S={s};A={p};MP={p};MS={s};MA={p}"
+  let ma := if mpa then p else "n/a"
+  s!"P={p};S={s};A={p};MP={p};MS={s};MA={ma}"
 
-def handleHistStr (body input : String) : Option String := do
+def handleHistStr (ck : CloneKind) (goType : String) (body input : String) : Option String := do
   match body.splitOn " // " with
   | [a, b, hops, tail] =>
     let ca ← parseSchema ((a.splitOn " ").filter (· ≠ ""))
@@ -150,13 +159,21 @@ def handleHistStr (body input : String) : Option String := do
         pure (t, i)
       | _ => none
     let h0 : List HCell := (step pinned Str.env (step pinned Str.env [] (.mk ca)).1 (.mk cb)).1
-    let h ← ((hops.splitOn " ").filter (· ≠ "")).foldlM (hopStep inB) h0
+    let h ← ((hops.splitOn " ").filter (· ≠ "")).foldlM (hopStep ck inB) h0
     let c ← h[t]?
     let x ← parseInput input.trimAscii.toString
-    pure (observe c.cfg x ++ ";H=ok")
+    pure (observe c.cfg x (hasMustParseAny goType) ++ ";H=ok")
   | _ => none
 
+/-- `c09 table`: the rows of the regenerated entry-point table the expectation does not cover. -/
+def tableReport : String :=
+  let off := EntryPoints.tableOffenders Gen.EntryPoints.table ++
+    (EntryPoints.wrapperOffenders Gen.EntryPoints.table).map (· ++ " is not the plain wrapper") ++
+    (EntryPoints.uncovered Gen.EntryPoints.table).map (· ++ " has no agreement theorem and no disposition")
+  if off.isEmpty then "table-ok" else " ; ".intercalate off
+
 def handleLine (line : String) : String :=
+  if line.startsWith "c09 table" then tableReport ++ "\t-" else
   let (lhs, impl) := match line.splitOn " @ " with
     | [a, b] => (a, some b)
     | _ => (line, none)
@@ -169,10 +186,16 @@ def handleLine (line : String) : String :=
   | [schema, input] =>
     match (schema.splitOn " ").filter (· ≠ "") with
     | "c09" :: "gen" :: _ => (impl.getD "-") ++ "\t" ++ spec
+    | "c09" :: "ill" :: _ => (impl.getD "-") ++ "\t" ++ spec
     | "c09" :: "hist" :: "gen" :: _ => (impl.getD "-") ++ "\t" ++ spec
     | "c09" :: "frame" :: _ => "frame:same" ++ "\t" ++ (impl.getD "-")
     | "c09" :: "hist" :: "str" :: _ =>
-      match handleHistStr (schema.drop "c09 hist str ".length).toString input with
+      match handleHistStr .copyAll "ZodString" (schema.drop "c09 hist str ".length).toString input with
+      | some m => m ++ "\t" ++ spec
+      | none => "bad-op"
+    -- integers in unary ("x"*n): `CloneFrom` keeps the receiver's checks (types/integer.go:597-605)
+    | "c09" :: "hist" :: "int" :: _ =>
+      match handleHistStr .keepChecks "ZodIntegerTyped" (schema.drop "c09 hist int ".length).toString input with
       | some m => m ++ "\t" ++ spec
       | none => "bad-op"
     | "c09" :: "str" :: cp :: rest =>
